@@ -191,3 +191,86 @@ MUTANTS = [
     M("vanish-unsign", CO, "def unsign_from_foolscap(ann_t):", "def unsign_from_foolscap_v2(ann_t):", "ANALYSIS-ERROR"),
     M("vanish-process", CL, "    def _process_announcement(self, ann, key_s):", "    def _process_announcement2(self, ann, key_s):", "ANALYSIS-ERROR"),
 ]
+
+# ---- C34.8 the rejection path is total on the rejected value
+BADSIG = ("            except BadSignature:\n"
+          "                self.log(\"bad signature on inbound announcement: %s\" % (ann_t,),\n"
+          "                         parent=lp, level=log.WEIRD, umid=\"ZAU15Q\")\n" + CONT)
+TAIL = "\n            self._process_announcement(ann, key_s)\n"
+HANDLERS = BADSIG + GENERIC + TAIL
+MALLOG = ("                self.log(\"malformed inbound announcement: %s\" % (ann_t,),\n"
+          "                         parent=lp, level=log.WEIRD, umid=\"gBPmDw\")\n")
+TRYHEAD = "            try:\n                # this might raise UnknownKeyError or bad-sig error\n"
+
+
+def _helper_refactor(render):
+    """try/except/else + one _log_rejected helper for both handlers (the seeded refactor); `render` is the slip."""
+    return ("            except BadSignature:\n"
+            "                self._log_rejected(\"bad signature on\", ann_t, lp, \"ZAU15Q\")\n"
+            "            except Exception:\n"
+            "                # an unsigned, unknown-key-format or otherwise malformed\n"
+            "                # announcement\n"
+            "                self._log_rejected(\"malformed\", ann_t, lp, \"gBPmDw\")\n"
+            "            else:\n"
+            "                self._process_announcement(ann, key_s)\n\n"
+            "    def _log_rejected(self, why, ann_t, lp, umid):\n"
+            + render +
+            "        self.log(\"%s inbound announcement: %s\" % (why, shown),\n"
+            "                 parent=lp, level=log.WEIRD, umid=umid)\n")
+
+
+C348 = [
+    # the seeded refactor: helper + try/else, the tuple rendered field by field with ensure_text
+    M("rejected-rendered-with-ensure-text-in-helper", CL, HANDLERS,
+      _helper_refactor("        shown = \" \".join(ensure_text(field) for field in ann_t)\n"), "C34.8"),
+    # the same refactor done faithfully
+    M("benign-rejection-log-helper-and-try-else", CL, HANDLERS, _helper_refactor("        shown = ann_t\n"), None),
+    M("benign-rejection-log-helper-repr", CL, HANDLERS, _helper_refactor("        shown = repr(ann_t)\n"), None),
+    # other edits with the same effect
+    M("rejected-key-decoded-for-the-log", CL, MALLOG,
+      "                self.log(\"malformed inbound announcement from %s\" % (ann_t[2].decode(\"ascii\"),),\n"
+      "                         parent=lp, level=log.WEIRD, umid=\"gBPmDw\")\n", "C34.8"),
+    M("rejected-field-count-logged", CL, MALLOG,
+      "                self.log(\"malformed inbound announcement (%d fields): %r\" % (len(ann_t), ann_t),\n"
+      "                         parent=lp, level=log.WEIRD, umid=\"gBPmDw\")\n", "C34.8"),
+    M("rejected-tuple-spread-over-percent", CL, MALLOG,
+      "                self.log(\"malformed inbound announcement: %s\" % ann_t,\n"
+      "                         parent=lp, level=log.WEIRD, umid=\"gBPmDw\")\n", "C34.8"),
+    M("rejected-unpacked-in-handler", CL, MALLOG,
+      "                (msg, sig, claimed) = ann_t\n"
+      "                self.log(\"malformed inbound announcement claiming key %r\" % (claimed,),\n"
+      "                         parent=lp, level=log.WEIRD, umid=\"gBPmDw\")\n", "C34.8"),
+    M("announcement-unpacked-in-front-of-the-try", CL, TRYHEAD,
+      "            (msg, sig, claimed) = ann_t\n" + TRYHEAD, "C34.8"),
+    M("rejected-counted-per-claimed-key", CL, MALLOG,
+      MALLOG + "                self._note_rejected(ann_t)\n", "C34.8",
+      edits=[(CL, "    def _process_announcement(self, ann, key_s):\n",
+              "    def _note_rejected(self, ann_t):\n"
+              "        who = ensure_str(ann_t[2] or b\"unsigned\")\n"
+              "        self._debug_counts[\"rejected:\" + who] = 1\n\n"
+              "    def _process_announcement(self, ann, key_s):\n")]),
+    # benign spellings of the log statement
+    M("benign-rejected-logged-by-format-kwargs", CL, MALLOG,
+      "                self.log(format=\"malformed inbound announcement: %(ann)s\", ann=ann_t,\n"
+      "                         parent=lp, level=log.WEIRD, umid=\"gBPmDw\")\n", None),
+    M("benign-rejected-logged-by-fstring", CL, MALLOG,
+      "                self.log(f\"malformed inbound announcement: {ann_t!r}\",\n"
+      "                         parent=lp, level=log.WEIRD, umid=\"gBPmDw\")\n", None),
+    M("benign-rejected-repr-concatenated", CL, MALLOG,
+      "                shown = repr(ann_t)\n"
+      "                self.log(\"malformed inbound announcement: \" + shown,\n"
+      "                         parent=lp, level=log.WEIRD, umid=\"gBPmDw\")\n", None),
+    M("benign-rejected-rendering-guarded", CL, MALLOG,
+      "                try:\n"
+      "                    shown = \" \".join(ensure_text(field) for field in ann_t)\n"
+      "                except Exception:\n"
+      "                    shown = repr(ann_t)\n"
+      "                self.log(\"malformed inbound announcement: %s\" % (shown,),\n"
+      "                         parent=lp, level=log.WEIRD, umid=\"gBPmDw\")\n", None),
+    M("benign-handlers-merged", CL, BADSIG + GENERIC,
+      "            except Exception as e:\n"
+      "                self.log(\"%s inbound announcement: %s\" % (\"bad signature on\" if isinstance(e, BadSignature) else \"malformed\", ann_t),\n"
+      "                         parent=lp, level=log.WEIRD, umid=\"gBPmDw\")\n"
+      "                continue\n", None),
+]
+MUTANTS = MUTANTS + C348
